@@ -252,7 +252,7 @@ impl GitSyncServer {
         let meta = Self::init_repo(&git, &local_path, &branch, remote.as_deref(), local_only)?;
         let encryption_secret = encryption_secret.into();
         let cryptor = Cryptor::new(&meta.salt, &encryption_secret)?;
-        let server = GitSyncServer {
+        let mut server = GitSyncServer {
             git,
             meta,
             local_path,
@@ -266,8 +266,21 @@ impl GitSyncServer {
         // Publish commits which an earlier run made but could not push (it was interrupted, or
         // the remote was unreachable), so that what this clone serves is what the remote has.
         // If that is not possible right now, the next write deals with it.
-        if let Err(e) = server.push() {
-            log::warn!("could not push to remote: {e}");
+        match server.push() {
+            Ok(true) => {}
+            Ok(false) => {
+                // The remote has moved on in the meantime (or cannot be reached). Commits it
+                // refuses can never be published, and the next write would drop them anyway, so
+                // take over the remote state now instead of serving versions that only exist
+                // here. (If the remote cannot be reached this fails and nothing is discarded.)
+                if let Err(e) = server
+                    .reset_to_remote()
+                    .and_then(|_| server.read_meta())
+                {
+                    log::warn!("could not push to remote, nor take over its state: {e}");
+                }
+            }
+            Err(e) => log::warn!("could not push to remote: {e}"),
         }
         Ok(server)
     }
